@@ -36,6 +36,10 @@ CHECKS['C02'] = dict(engine='mirsym', category='model_checking', design='DESIGN.
    text="Bounded symbolic execution of the MIR of <Type as IntoPortable>::into_portable and every nested IntoPortable impl (TypeParameter, TypeDef and its seven payload structs, Field, Variant, Path, &'static str) on a symbolic MetaForm type: kind, primitive, presence of every Option, every vector length within the bound, array length and variant index are solver variables; strings and MetaTypes are opaque; Registry::register_type is an uninterpreted function id_of with a call log. On every path z3 refutes any difference between the output and the structural image of the input (MetaType m -> id_of(m), nothing else changed). Combined with C01(a) this yields the property by induction on the reference structure.",
    note="Termination of registration on cyclic type graphs is argued (known-type case of C01(a)) and exercised natively on recursive/mutually recursive types, not solver-decided. register_type's real behaviour is C01(a)/C05. Counterexamples are confirmed by the native faithful-image battery (hand-written and derived types incl. docs, type names, BitVec).",
    technique=TECH)
+CHECKS['C17'] = dict(engine='mirsym', category='model_checking', design='DESIGN.md §6 C17',
+   text="Symbolic execution of the MIR of every builder method (TypeBuilder, Fields/FieldsBuilder, FieldBuilder incl. ty/compact, Variants, VariantBuilder, TypeDefTuple::new, MetaType::new/is_phantom) along seeded typestate-valid call skeletons (setter order, optional and repeated setters, closures whose bodies are driver-chosen setter sequences). Arguments are symbolic: strings opaque, index u8 and discriminant u64 bit-vectors, every field's TypeId a free 128-bit variable so the solver decides whether a member is the PhantomData identity. Oracle: the built Type holds exactly what was supplied, in order, minus PhantomData members; docs(..) kept iff the MIR was dumped with the docs feature, docs_always(..) always. Run on MIR dumped with docs off and on.",
+   note="The skeleton dimension is seeded (30 quick / 120 thorough per shape and feature set), not exhaustive; portable builders (field_portable, docs_portable) are covered only by the native battery. Counterexamples are confirmed by a native builder battery built with and without the docs feature.",
+   technique=TECH)
 NA = {
 }
 m = {
